@@ -19,7 +19,8 @@ def run(ctx):
                 "a trace in which a connection was established and (a cut, a restart, a time-out, a retry or a rejection) happened; "
                 "(c) oracle runs: a fixed battery (independent of the seed), the corpus and seeded runs: byte- and block-granular "
                 "schedules to quiescence with cross-connects, parallel hints, cuts, restarts, black holes, one-sided cuts with redial "
-                "from the side that noticed (both dial directions, several rounds), lookups issued re-entrantly from callbacks/errbacks")
+                "from the side that noticed (both dial directions, several rounds), lookups issued re-entrantly from callbacks/errbacks, "
+                "lookups queued before Tub.startService() (1-5, same Tub and a third Tub) followed by the start and the same races")
     ctx.assumptions = [
         "TLS is a no-op startTLS; peerFromTransport returns the peer Tub's certificate",
         "the model delivers whole negotiation blocks; the GET/101 exchange is folded into the dial step (byte-granular "
@@ -28,6 +29,8 @@ def run(ctx):
         "vocabulary/version negotiation always succeeds here (C13 covers it); handle-old-duplicate-connections is off in "
         "the two-Tub model (the translated decision function covers it)",
         "virtual time: CONNECTION_TIMEOUT is the armed timer; the model's Timeout step is that timer firing",
+        "lookups queued before Tub.startService() are outside the Coq model (it counts waiters, it does not identify Deferreds): "
+        "that path is covered by the oracle (prestart family) and by a translated shape fact on the relay closure",
     ]
     ok, log = ctx.coq_build(["props/C14.vo"])
     from harness import c14_impl as impl
